@@ -33,11 +33,12 @@ const (
 	kEst
 	kMod
 	kDel
+	kDelGone // a Deletion for a SEID that addresses no session (released, or never issued): answered "not found"
 	kEstUnknown
 	nKinds
 )
 
-var kindName = []string{"Heartbeat", "Assoc", "Est", "Mod[QueryURR 1]", "Del", "Est-for-unknown-node"}
+var kindName = []string{"Heartbeat", "Assoc", "Est", "Mod[QueryURR 1]", "Del", "Del-of-a-released-SEID", "Est-for-unknown-node"}
 
 type rxRef struct {
 	peer  int
@@ -191,8 +192,22 @@ func (c *c06) kindEnabled(p, k int) bool {
 		return len(c.R.Live) < 2
 	case kMod, kDel:
 		return c.liveSessOf(p) != 0
+	case kDelGone:
+		_, assoc := c.R.Nodes[c.W.PeerIP(p)]
+		return assoc && c.goneSEID() != 0
 	}
 	return false
+}
+
+// goneSEID: a SEID that addresses no session now - the most recently released one that has not been re-issued
+// (a never-issued one if none). A later establishment may be given it again while the rejected request is still retained.
+func (c *c06) goneSEID() uint64 {
+	for k := len(c.EstUP); k >= 1; k-- {
+		if up := c.SeidOf(k); up != 0 && c.R.Live[up] == nil {
+			return up
+		}
+	}
+	return 7 // never issued (at most two sessions are live at a time, so the table never grows that far)
 }
 
 func (c *c06) liveSessOf(p int) uint64 {
@@ -245,6 +260,8 @@ func (c *c06) build(p int, seq uint32, k int) []byte {
 		return smf.Mod(seq, c.liveSessOf(p), "", op('Q', 'U', 1))
 	case kDel:
 		return smf.Del(seq, c.liveSessOf(p))
+	case kDelGone:
+		return smf.Del(seq, c.goneSEID())
 	case kEstUnknown:
 		return smf.Est(seq, c.W.PeerIP(p), true, 0x30, c.W.PeerIP(p), op('C', 'F', 1))
 	}
@@ -283,7 +300,7 @@ func (c *c06) Apply(e seqx.Event) seqx.StepResult {
 			ref.rsp = ms[0].Raw
 		}
 		// the first copy must have been executed (not mistaken for a retransmission)
-		want := map[int]uint8{kHB: smf.MHeartbeatRsp, kAssoc: smf.MAssocRsp, kEst: smf.MEstRsp, kMod: smf.MModRsp, kDel: smf.MDelRsp}
+		want := map[int]uint8{kHB: smf.MHeartbeatRsp, kAssoc: smf.MAssocRsp, kEst: smf.MEstRsp, kMod: smf.MModRsp, kDel: smf.MDelRsp, kDelGone: smf.MDelRsp}
 		if _, assoc := c.R.Nodes[c.W.PeerIP(p)]; k == kEst && !assoc {
 			// establishment from a peer that is not associated: no response, no session
 			if len(ms) != 0 || len(c.W.V.SessDumps()) != nLive {
@@ -302,6 +319,11 @@ func (c *c06) Apply(e seqx.Event) seqx.StepResult {
 			j.Fail("unknown-node-answered", "%s produced a response: %v", e, ms)
 		}
 		switch k {
+		case kDelGone:
+			if ms[0].Cause() != smf.CauseContextNotFound || len(o.Calls) != 0 || len(c.W.V.SessDumps()) != nLive {
+				j.Fail("first-copy-not-executed:"+kindName[k], "%s: cause %d, calls %v, sessions %d -> %d; want 'session context not found' and no effect", e, ms[0].Cause(), o.Calls, nLive, len(c.W.V.SessDumps()))
+			}
+			j.Tag("rejected-request-retained")
 		case kAssoc:
 			c.R.Assoc(c.W.PeerIP(p), p)
 		case kEst:
